@@ -97,7 +97,10 @@ def load_known():
         return json.load(fh).get('findings', [])
 
 
-def finish(ctx, replay_key=None, write=True, out=print):
+def finish(ctx, replay_key=None, write=None, out=print):
+    if write is None:
+        # evidence and replay files describe /repo itself; scratch trees (SEDLINT_REPO) never overwrite them
+        write = os.path.realpath(ctx.repo.root) == '/repo' or os.environ.get('SEDLINT_WRITE') == '1'
     """Print the report, write evidence and replay files, return exit code."""
     known = [k for k in load_known() if k.get('property') == ctx.pid and k.get('status') == 'known']
     obs = ctx.obs
